@@ -100,7 +100,7 @@ def restore():
 
 def run_check(prop):
     t = time.time()
-    env = dict(os.environ, VERIF_REPO=REPO, VERIF_BUILD=BUILD)
+    env = dict(os.environ, VERIF_REPO=REPO, VERIF_BUILD=BUILD, VERIF_SHRINK_BUDGET=os.environ.get('VERIF_SHRINK_BUDGET', '12'))
     r = subprocess.run(['./check', prop, 'quick'], cwd=V, env=env, stdout=subprocess.PIPE, stderr=subprocess.STDOUT, encoding='utf-8', errors='replace')
     viol = [l for l in r.stdout.splitlines() if l.startswith('VIOLATION') or l.startswith('  minimised') or l.startswith('violation candidate')]
     return r.returncode, viol, time.time() - t, r.stdout
